@@ -7,7 +7,7 @@
    account of kind Notary, is distinct from the NEO contract, the validators' address and every key's address; decidable,
    [cfg_wf_of_check]) and [blocks_ok] (no transaction is signed by the Notary contract: NotaryAssisted fee payment is
    not modelled). *)
-From NG Require Import Common.Tactics Tokens.Model Tokens.MapLemmas Tokens.Inv Tokens.NeoProofs Tokens.OpProofs Tokens.NotifLimit Tokens.C05Theorems Tokens.CfgCheck.
+From NG Require Import Common.Tactics Tokens.Model Tokens.MapLemmas Tokens.Inv Tokens.NeoProofs Tokens.OpProofs Tokens.NotifLimit Tokens.Reentrant Tokens.C05Theorems Tokens.CfgCheck.
 Open Scope Z_scope.
 
 (* NEO total supply is exactly 100 000 000 and equals the sum of all NEO balances *)
@@ -136,6 +136,35 @@ Example C05_post_effect_examples :
   /\ gas_bal (exec_tx nl_cfg nl_st (nl_tx 0 (LGasT 0 7 1511 DNone) 0)) 7 = 1511
   /\ exec_tx nl_cfg nl_st (nl_tx 1 (LGasT 0 7 1511 DNone) 0) = nl_st.
 Proof. exact post_effect_examples. Qed.
+
+(* Payment callbacks that RE-ENTER the native contract in progress (Tokens/Reentrant.v).  PARTIAL: proved on an abstract
+   ledger of the Notary contract alone (its GAS, the deposits), with the receiver's callback of Notary.withdraw an ARBITRARY
+   function keeping the backing potential / an arbitrary sub-history of deposits (for the withdrawing account too) and
+   withdrawals nested to any depth.  Missing: the same for every clause in the full model of Tokens/Model.v, whose receivers
+   are of fixed kinds that do not re-enter (the theorems above); re-entering receivers are covered on the real chain only
+   (harness/c05reent.go).  The full statement, in the abstract ledger's terms: *)
+Definition C05_reentrant_callbacks_statement : Prop :=
+  forall (cb : nst -> nst) a s, (forall x, backing (cb x) = backing x) -> backing s = 0 -> backing (n_withdraw cb a s) = 0.
+
+Theorem C05_reentrant_withdraw_backing_partial : C05_reentrant_callbacks_statement.
+Proof. exact reentrant_statement_holds. Qed.
+Print Assumptions C05_reentrant_withdraw_backing_partial.
+
+Theorem C05_reentrant_history_backing_partial : forall (l : list cbop) a s,
+  backing (n_withdraw (run_cb l) a s) = backing s.
+Proof. exact reentrant_history_backing. Qed.
+Print Assumptions C05_reentrant_history_backing_partial.
+
+(* "clean up again after the transfer" refuted: a second removal of the withdrawing account's record in the completion
+   deletes the record the callback created (a roll-over) while its GAS stays on the Notary account *)
+Theorem C05_cleanup_after_transfer_refuted :
+  let s := (12, [5; 7; 0]) in
+  backing s = 0
+  /\ backing (n_withdraw (run_cb [CDeposit 1 7]) 1 s) = 0
+  /\ n_withdraw_again (run_cb [CDeposit 1 7]) 1 s = (12, [5; 0; 0])
+  /\ backing (n_withdraw_again (run_cb [CDeposit 1 7]) 1 s) = 7.
+Proof. exact cleanup_after_transfer_refuted. Qed.
+Print Assumptions C05_cleanup_after_transfer_refuted.
 
 (* non-vacuity: a concrete configuration satisfying the hypotheses and a history with a transfer, a registration,
    a vote, a notary deposit and a refused over-balance transfer; the reached state is not the trivial one *)
